@@ -232,6 +232,10 @@ func execAttack(w *world.World, s Step) bool {
 		for _, v := range vs {
 			w.ReceiveAttack(p, [][]byte{v.raw}, v.name)
 		}
+		// unauthenticated plaintext lines (plain and whitespace-tagged) slipped into the conversation
+		w.Text(7777)
+		w.ReceiveAttack(p, [][]byte{w.Text(7777)}, "plaintext")
+		w.ReceiveAttack(p, [][]byte{append(append([]byte{}, w.Text(7777)...), []byte(" \t  \t\t\t\t \t \t \t    \t\t  \t   \t\t  \t\t")...)}, "plaintext-tagged")
 		return true
 	case "TamperOne":
 		// the message at the head of p's queue is replaced by one tampered form (then delivered normally)
